@@ -480,23 +480,12 @@ fn prop_with(case: &Case, info: &mut CaseInfo, exclude_known: bool) -> Verdict {
                         info.class("excluded_known:304-without-copy");
                         continue;
                     }
-                    if known_reuse && dirty {
-                        EXCLUDED_REUSE.fetch_add(1, Ordering::Relaxed);
-                        info.class("excluded_known:reuse");
-                        continue;
-                    }
                     notif_override = Some(Resp::status(304));
                 }
                 NStale(k) => {
                     if versions.len() >= 2 {
                         let idx = versions.len().saturating_sub(1 + *k as usize);
                         let v = &versions[idx];
-                        let same_as_local = local.as_ref().map(|l| l.session == v.session && l.serial == v.serial).unwrap_or(false);
-                        if known_reuse && dirty && same_as_local {
-                            EXCLUDED_REUSE.fetch_add(1, Ordering::Relaxed);
-                            info.class("excluded_known:reuse");
-                            continue;
-                        }
                         notif_override = Some(Resp::ok(v.notification.clone()));
                         notified = (v.session, v.serial);
                         truth = v.objects.clone();
@@ -749,7 +738,8 @@ fn prop_with(case: &Case, info: &mut CaseInfo, exclude_known: bool) -> Verdict {
                         }
                         let unchanged = before.as_ref().ok().and_then(|b| b.as_ref()).map(|b| *b == after).unwrap_or(false);
                         let gap = local.as_ref().map(|l| l.session == n_sess && gap_in_needed(&list, l.serial + 1, n_serial)).unwrap_or(false);
-                        let key = if dirty && unchanged && !snap_req {
+                        let _ = unchanged;
+                        let key = if dirty && !snap_req {
                             KEY_REUSE.to_string()
                         } else if gap && !snap_req {
                             KEY_GAP.to_string()
@@ -792,7 +782,9 @@ fn prop_with(case: &Case, info: &mut CaseInfo, exclude_known: bool) -> Verdict {
                     }
                     local = Some(Local { session: n_sess, serial: n_serial, objects: want });
                     dirty = false;
-                    rewritten.clear();
+                    if !got304 && n_sess == server.session && n_serial == server.serial {
+                        rewritten.clear();
+                    }
                 }
                 Ok(Some(_)) => return fail("C25/non-rrdp-repository".into(), "rsync is disabled, yet a non-RRDP repository was returned".into()),
                 Ok(None) => {
@@ -823,6 +815,12 @@ fn prop_with(case: &Case, info: &mut CaseInfo, exclude_known: bool) -> Verdict {
         drop(run);
         if let Some(v) = out.verdict {
             return v;
+        }
+        if dirty && known_reuse {
+            // everything that follows starts from a copy a failed update has modified: the listed shape
+            EXCLUDED_REUSE.fetch_add(1, Ordering::Relaxed);
+            info.class("excluded_known:reuse(case cut after the failed update modified the copy)");
+            break;
         }
         // restore honest files for what was overlaid
         for d in &server.deltas {
@@ -857,6 +855,26 @@ fn directed_304() -> Case {
     Case { seed: 3, srv_deltas: 8, max_delta_count: 4, max_list_len: 8, etag: false, steps: vec![Step::Server(Op::Put { u: 0, c: 0 }), Step::Fetch(vec![Fault::N304]), Step::Fetch(vec![])] }
 }
 
+/// Second manifestation of the same root cause: the residue of a refused (tampered) delta survives a later,
+/// fully successful delta update.
+fn directed_residue() -> Case {
+    Case {
+        seed: 4,
+        srv_deltas: 4,
+        max_delta_count: 4,
+        max_list_len: 8,
+        etag: false,
+        steps: vec![
+            Step::Server(Op::Put { u: 5, c: 0 }),
+            Step::Fetch(vec![]),
+            Step::Server(Op::Put { u: 5, c: 0 }),
+            Step::Server(Op::Put { u: 0, c: 0 }),
+            Step::Fetch(vec![Fault::DTamper(0), Fault::S404]),
+            Step::Fetch(vec![]),
+        ],
+    }
+}
+
 fn directed_reuse() -> Case {
     Case {
         seed: 2,
@@ -886,6 +904,7 @@ pub fn run(ctx: &Ctx, rep: &mut Report, replay: Option<&serde_json::Value>) {
     // directed representatives of the known findings
     run_case(ctx, rep, "directed-gap", &directed_gap(), prop_all);
     run_case(ctx, rep, "directed-reuse", &directed_reuse(), prop_all);
+    run_case(ctx, rep, "directed-residue", &directed_residue(), prop_all);
     run_case(ctx, rep, "directed-304", &directed_304(), prop_all);
     run_prop_par(ctx, rep, "histories", ctx.tier.pick(600, 8000), 8, || case_strategy(ctx.tier.pick(22, 30)), prop);
     let g = EXCLUDED_GAP.load(Ordering::Relaxed);
